@@ -2,6 +2,9 @@
 library's xml.etree.ElementTree (not lxml).  Shares no code with prov.  Output: shape of oracles.strict.doc_desc.
 """
 import datetime
+import re
+
+RE_XSD_DATETIME = re.compile(r"-?[0-9]{4,}-[0-9]{2}-[0-9]{2}T[0-9]{2}:[0-9]{2}:[0-9]{2}(\.[0-9]+)?(Z|[+-][0-9]{2}:[0-9]{2})?")
 import io
 import xml.etree.ElementTree as ET
 
@@ -105,6 +108,8 @@ def _resolve(qname, nsmap, what):
 
 
 def _time(s):
+    if not RE_XSD_DATETIME.fullmatch(s.strip()):
+        raise XmlSpecViolation("not an xsd:dateTime lexical form: %r" % (s,))
     t = datetime.datetime.fromisoformat(s.strip().replace("Z", "+00:00"))
     off = t.utcoffset()
     return ("datetime", t.replace(tzinfo=None).isoformat(), None if off is None else off.total_seconds())
